@@ -51,6 +51,10 @@ let run_case (line:string) : string =
     (match deserialize_checked (bytes_of_hex (tok ts)) with
      | DOk es -> "ok " ^ ents_str es
      | DExhaust -> "exhaust")
+  | "zxy2id" -> let z = tn ts in let x = tn ts in let y = tn ts in "ok " ^ string_of_n (zxy_to_id z x y)
+  | "id2zxy" -> let ((z, x), y) = id_to_zxy (tn ts) in
+    String.concat " " ["ok"; string_of_n z; string_of_n x; string_of_n y]
+  | "parent" -> "ok " ^ string_of_n (parent_id (tn ts))
   | op -> "unknown-op " ^ op
 
 let () =
